@@ -1,4 +1,4 @@
-import AmVerif.Proofs.StoreBuild
+import AmVerif.Proofs.StoreFull
 import AmVerif.Props.C02Store
 /-
   C01 (op store) — "Convergence: Any two documents that hold the same set of changes show identical
@@ -28,6 +28,14 @@ theorem C01_store_canonical (w : Op → Nat) (ops₁ ops₂ : List Op) (h₁ : A
     (buildStore w ops₁).map Row.core = (buildStore w ops₂).map Row.core :=
   store_core_unique hp h₁.wf.strict.distinctIds (buildStore_inv w h₁) (buildStore_inv w h₂)
 
+/-- … including the index columns: the two stores are EQUAL (when every op names predecessors of
+    its own register only, which is what makes the incrementally maintained `top` column exact). -/
+theorem C01_store_equal (w : Op → Nat) (ops₁ ops₂ : List Op) (h₁ : Admissible ops₁)
+    (h₂ : Admissible ops₂) (hp : ops₁.Perm ops₂) (hp₁ : PredsOk ops₁) (hp₂ : PredsOk ops₂) :
+    buildStore w ops₁ = buildStore w ops₂ :=
+  store_ext (C01_store_canonical w ops₁ ops₂ h₁ h₂ hp) (buildStore_index w h₁ hp₁)
+    (buildStore_index w h₂ hp₂)
+
 /-- the same, for any two stores satisfying the invariant (however they were built) -/
 theorem C01_store_canonical_inv (ops₁ ops₂ : List Op) (s₁ s₂ : Store) (hp : ops₁.Perm ops₂)
     (hd : DistinctIds ops₁) (h₁ : StoreInv ops₁ s₁) (h₂ : StoreInv ops₂ s₂) :
@@ -36,9 +44,10 @@ theorem C01_store_canonical_inv (ops₁ ops₂ : List Op) (s₁ s₂ : Store) (h
 
 /-- the two example orders of `Props/C02Store` (concurrent siblings, conflicting updates,
     increments, a delete; actor B's ops early in the second) end in the same store -/
-example : Admissible h1 ∧ Admissible h2 ∧ h1.Perm h2 ∧ h1 ≠ h2 ∧
+example : Admissible h1 ∧ Admissible h2 ∧ h1.Perm h2 ∧ h1 ≠ h2 ∧ PredsOk h1 ∧ PredsOk h2 ∧
     (buildStore w1 h1).map Row.core = (buildStore w1 h2).map Row.core ∧
     buildStore w1 h1 = buildStore w1 h2 :=
-  ⟨admissibleB_sound (by decide), admissibleB_sound (by decide), by decide, by decide, by decide, by decide⟩
+  ⟨admissibleB_sound (by decide), admissibleB_sound (by decide), by decide, by decide, by decide,
+   by decide, by decide, by decide⟩
 
 end AmVerif.Props.C01Store
